@@ -322,6 +322,14 @@ PROPS = {
         "quick": {"timeout": 600, "params": "verif_C15_pcap:len=0..48;verif_C15_pcap_(chunks|fault):len=0..48/4;verif_C15_snoop.*:len=0..44/4;verif_C15_ng:len=0..30/2;verif_C15_ng_idb:len=0..28/4;verif_C15_ng_epb:len=28..44/4", "units": "verif_C15_(pcap|pcap_chunks|pcap_fault|snoop|snoop_fault|ng|ng_idb|ng_epb)"},
         "thorough": {"timeout": 3000, "params": "verif_C15_pcap.*:len=0..72;verif_C15_snoop.*:len=0..64;verif_C15_ng:len=0..40;verif_C15_ng_(chunks|fault|mixed):len=0..36;verif_C15_ng_idb:len=0..44;verif_C15_ng_epb:len=28..64"},
     },
+    "C16": {
+        "pkgs": [MOD],
+        "static": [("", "c16.go")],
+        "bounds": "data-source histories of 3 events from {packet (0..2 symbolic bytes, symbolic caplen/len relation), timeout error, transient error, EOF}; pull interface with copying and zero-copy sources; channel interface with a consumer goroutine and cancellation after any number of received packets (or never), all interleavings at channel/select granularity with <= 1 (quick) / 2 (thorough) preemptions; zero-copy + NoCopy guard",
+        "outside": "the 1000-slot buffer filling up; wall-clock sleeps (time.Sleep is a scheduler yield)",
+        "quick": {"timeout": 900, "params": "verif_C16_chan:preempt=0..1"},
+        "thorough": {"timeout": 3000, "params": "verif_C16_chan:preempt=0..2"},
+    },
     "C17": {
         "pkgs": [MOD],
         "static": [("", "c17.go")],
@@ -331,6 +339,14 @@ PROPS = {
         "quick": {"timeout": 300},
         "thorough": {"timeout": 900},
     },
+    "C09": {
+        "pkgs": [MOD + "/reassembly"],
+        "static": [("reassembly", "c09.go")],
+        "bounds": "Sequence lemma over all 2^64 pairs (distance < 2^30); histories: SYN + k <= 2 (quick) / 3 (thorough) segments with symbolic offset 0..7 and length 0..3 into an 11-byte symbolic stream, fully symbolic 32-bit ISN, stream optionally keeping the last byte (KeepFrom), optional FlushWithOptions after each segment and final FlushAll",
+        "outside": "longer histories, multi-page segments, both directions interleaved, page limits",
+        "quick": {"timeout": 900, "units": "verif_C09_(seq_lemma|hist2|hist2_keep)"},
+        "thorough": {"timeout": 3000},
+    },
     "C10": {
         "pkgs": [MOD + "/tcpassembly"],
         "static": [("tcpassembly", "c10.go")],
@@ -338,6 +354,22 @@ PROPS = {
         "outside": "longer histories, multi-page segments, both directions interleaved",
         "quick": {"timeout": 900, "units": "verif_C10_(seq_lemma|hist2|hist2_flush)"},
         "thorough": {"timeout": 3000},
+    },
+    "C11": {
+        "pkgs": [MOD + "/tcpassembly"],
+        "static": [("tcpassembly", "c10.go"), ("tcpassembly", "c12.go")],
+        "bounds": "tcpassembly: histories of <= 2 (quick) / 3 (thorough) segments over two connections with symbolic SYN/FIN/RST flags, symbolic sequence offset 0..5 and payload length 0..2, optional age-based flush with symbolic cut-off after each, per-connection page limit none/1/2, final FlushAll; audited at every step: completion count per stream, late data, pages in use, live connections, page limit",
+        "outside": "package reassembly's lifecycle (its delivery order is covered by C09); long histories; many connections; multi-page packets",
+        "quick": {"timeout": 900, "units": "verif_C11_lifecycle", "params": "verif_C11_lifecycle:k=1..2"},
+        "thorough": {"timeout": 6000, "units": "verif_C11_lifecycle", "params": "verif_C11_lifecycle:k=1..3"},
+    },
+    "C12": {
+        "pkgs": [MOD + "/tcpassembly"],
+        "static": [("tcpassembly", "c10.go"), ("tcpassembly", "c12.go")],
+        "bounds": "tcpassembly: two assembler goroutines sharing one pool, one packet each (SYN and data of the same direction, or of an unrelated connection), factory and stream callbacks yield; all interleavings at lock/callback granularity with <= 2 (quick) / 3 (thorough) preemptions; then FlushAll",
+        "outside": "the Go scheduler and memory model below lock granularity; more goroutines and packets; package reassembly's bidirectional connection table (its getConnection contains a documented FIXME panic for the racing-directions case, not explored here)",
+        "quick": {"timeout": 900, "units": "verif_C12_two_assemblers", "params": "verif_C12.*:preempt=0..2"},
+        "thorough": {"timeout": 3000, "units": "verif_C12_two_assemblers", "params": "verif_C12.*:preempt=0..3"},
     },
     "C13": {
         "pkgs": [MOD + "/ip4defrag", MOD + "/ip6defrag"],
